@@ -1182,8 +1182,8 @@ pub fn run_c04_supp(ctx: &Ctx) -> Report {
     }
     let cfg = SweepCfg {
         shards: 4,
-        // the slowest clean case of the quick tier takes about 5 s; a deadlocked case costs the cap
-        case_timeout: Duration::from_secs(ctx.pick(45, 600)),
+        // the slowest clean case of the quick tier takes about 9 s (chk profile); a deadlocked case costs the cap
+        case_timeout: Duration::from_secs(ctx.pick(60, 600)),
     };
     let results = run_sweep(ctx, &d.cases, &cfg);
     timing(&d.cases, &results);
